@@ -442,6 +442,12 @@ func runC01(r *fw.Run) {
 	c01CoordinateCompleteness(r)
 	c01MergedScopeKeepsUnscoped(r)
 
+	r.Rule("C01-R11", "in the GraphQL data source planner the ref of an ast.Value is handed to an accessor of kind K only where the value's kind is known to be K (one frozen, reasoned exception)")
+	nKR := kindRefAgreement(r, "C01-R11", []string{"gqlds"}, map[string]string{
+		"Planner.addDirectiveToNode": "the local list `variables` is filled a few lines above, in the same function, only with argument values whose Kind == ValueKindVariable; the loop reads the elements of that list",
+	})
+	r.Expect("C01-R11", "kind-specific uses of a value's ref in graphql_datasource", nKR, 1)
+
 	r.Rule("C01-R8", "in every planner visitor (packages plan and graphql_datasource) a node is looked up only in the document it came from: a definition node (Walker.EnclosingTypeDefinition, TypeDefinitions, a lookup in the definition) is never handed to a method of the operation document, nor the other way round")
 	documentProvenance(r, "C01-R8", []string{"plan", "gqlds"}, 28)
 }
